@@ -24,7 +24,7 @@ from ser import Ser, Unsupported
 from props import c03 as J
 
 LEAN_MODULE = "Optyx.Props.C17"
-EXTRA_MODULES = ["Optyx.Props.PinsC17", "Optyx.Props.BuildTie", "Optyx.Props.ClosurePathTie"]   # transcription anchors (harness/source_pins.py)
+EXTRA_MODULES = ["Optyx.Props.PinsC17", "Optyx.Props.BuildTie", "Optyx.Props.ClosurePathTie", "Optyx.Props.SymbolicJacTie"]   # transcription anchors (harness/source_pins.py)
 THEOREMS = [
     "Optyx.Props.Closures.closureTables_agree",
     "Optyx.Props.Closures.sanitizeShape_agrees",
@@ -43,6 +43,8 @@ THEOREMS = [
     "Optyx.Props.ClosurePathTie.unaryGradient_path",
     "Optyx.Props.ClosurePathTie.compileGradient_path",
     "Optyx.Props.ClosurePathTie.compileHessian_path",
+    "Optyx.Props.SymbolicJacTie.computeJacobian_eq",
+    "Optyx.Props.SymbolicJacTie.computeHessian_eq",
     "Optyx.Props.PinsC17.anchors",
 ]
 ASSUMPTIONS = [
